@@ -108,7 +108,10 @@ def import_chartparse():
             root.removeHandler(h)
         lg = logging.getLogger("chartparse")
         lg.propagate = False
-        lg.setLevel(logging.DEBUG)
+        # which records the library is ASKED for is the application's choice and a workload dimension: half of the shards run with
+        # the package's loggers enabled for DEBUG, half at the level an application gets by default (WARNING); the monitors only
+        # ever judge records of level WARNING and above
+        lg.setLevel(getattr(logging, os.environ.get("VMON_LOGLEVEL", "DEBUG"), logging.DEBUG))
         lg.addHandler(LOG)
         _imported = True
     return chartparse
